@@ -89,6 +89,14 @@ func runC06(w *World) *Result {
 	c06Slots(w, pf, r)
 	r.Rule("R-C06-subst", "a parsed value is replaced by a synthesised node only when it is the nil literal", 1)
 	c06Subst(w, pf, r)
+	r.Rule("R-C06-redecl", "a declaration that re-uses an existing variable keeps (and so checks against) the type of the found definition", 1)
+	if cf, err := buildCtxFacts(w); err == nil {
+		c06Redecl(w, pf, cf, r)
+	} else {
+		r.Bad("R-C06-redecl", "context:facts", "-", err.Error())
+	}
+	r.Rule("R-C06-single", "every element of a value list is tested for multiple results before the list can end", 1)
+	c06Single(w, r)
 	// second line
 	bash, err1 := BuildBackend(w, "bash")
 	batch, err2 := BuildBackend(w, "batch")
@@ -1242,4 +1250,256 @@ func (pf *ParserFacts) fieldNeverNil(structT types.Type, field int, depth int, s
 		}
 	}
 	return any
+}
+
+// c06Redecl: a definition that can re-use an existing variable (the function looks the name
+// up and receives "found") constructs the variable with a type that depends on the found
+// definition: otherwise the re-used variable is re-created untyped, takes over the type of
+// the new value, and `a := "s"; a, b := 1, 2` is accepted.
+func c06Redecl(w *World, pf *ParserFacts, cf *ctxFacts, r *Result) {
+	rule := "R-C06-redecl"
+	ppkg := w.Pkgs["parser"].Types
+	n := 0
+	for _, fn := range w.Funcs("parser") {
+		// lookups of variables with a found flag
+		var lookups []*ssa.Call
+		for _, b := range fn.Blocks {
+			for _, ins := range b.Instrs {
+				if c, ok := ins.(*ssa.Call); ok {
+					if callee := c.Call.StaticCallee(); callee != nil && cf.lookups[callee] && callee.Signature.Results().Len() == 2 && isNamed(callee.Signature.Results().At(0).Type(), "Variable") {
+						lookups = append(lookups, c)
+					}
+				}
+			}
+		}
+		if len(lookups) == 0 {
+			continue
+		}
+		perFn := 0
+		for _, b := range fn.Blocks {
+			for _, ins := range b.Instrs {
+				c, ok := ins.(*ssa.Call)
+				if !ok {
+					continue
+				}
+				callee := c.Call.StaticCallee()
+				if callee == nil || pkgOf(callee) != ppkg || callee.Signature.Recv() != nil || callee.Signature.Results().Len() != 1 || !isNamed(callee.Signature.Results().At(0).Type(), "Variable") {
+					continue
+				}
+				// the type argument
+				var typeArg ssa.Value
+				for _, a := range c.Call.Args {
+					if isNamed(a.Type(), "ValueType") {
+						typeArg = a
+					}
+				}
+				if typeArg == nil {
+					continue
+				}
+				// only constructions that follow a lookup in the same loop iteration / function
+				var lk *ssa.Call
+				for _, l := range lookups {
+					if l.Block().Dominates(c.Block()) {
+						lk = l
+					}
+				}
+				if lk == nil {
+					continue
+				}
+				// a constant type (loop counters, parameters) is a fresh variable by construction
+				if _, isConstType := typeArg.(*ssa.Call); isConstType {
+					if tc := typeArg.(*ssa.Call).Call.StaticCallee(); tc != nil && tc.Name() == "NewValueType" {
+						continue
+					}
+				}
+				// a lookup that is a newness test (found → error) never reaches the construction with a found definition
+				newness := false
+				for _, ref := range *lk.Referrers() {
+					ex, ok := ref.(*ssa.Extract)
+					if !ok || ex.Index != 1 {
+						continue
+					}
+					for _, blk := range fn.Blocks {
+						cnd, neg := condOf(blk)
+						if cnd == nil {
+							continue
+						}
+						var cs []ssa.Value
+						collectCalls(cnd, &cs, 0)
+						uses := cnd == ssa.Value(ex)
+						if ph, ok := cnd.(*ssa.Phi); ok {
+							for _, e := range ph.Edges {
+								if e == ssa.Value(ex) {
+									uses = true
+								}
+							}
+						}
+						if !uses {
+							continue
+						}
+						found := blk.Succs[0]
+						if neg {
+							found = blk.Succs[1]
+						}
+						if leadsToErrorReturn(found, 0) && !found.Dominates(c.Block()) {
+							newness = true
+						}
+					}
+				}
+				if newness {
+					continue
+				}
+				n++
+				perFn++
+				key := fmt.Sprintf("redecl:%s#%d", FuncName(fn), perFn)
+				dep := false
+				seen := map[ssa.Value]bool{}
+				var back func(v ssa.Value, d int)
+				back = func(v ssa.Value, d int) {
+					if d > 6 || seen[v] || dep {
+						return
+					}
+					seen[v] = true
+					switch x := v.(type) {
+					case *ssa.Phi:
+						for _, e := range x.Edges {
+							back(e, d+1)
+						}
+					case *ssa.Call:
+						for _, a := range x.Call.Args {
+							back(a, d+1)
+						}
+					case *ssa.Extract:
+						if x.Tuple == lk && x.Index == 0 {
+							dep = true
+						}
+					case *ssa.UnOp:
+						back(x.X, d+1)
+					case *ssa.Field:
+						back(x.X, d+1)
+					}
+				}
+				back(typeArg, 0)
+				if dep {
+					r.Ok(rule, key, w.Pos(c.Pos()), "the variable built after the lookup takes the type of the found definition where one exists")
+				} else {
+					r.Bad(rule, key, w.Pos(c.Pos()), "the variable built after the lookup never receives the type of the definition the lookup found: a re-used variable is re-created untyped and silently takes the type of the new value (a := \"s\"; a, b := 1, 2)")
+				}
+			}
+		}
+	}
+	if n == 0 {
+		r.Bad(rule, "redecl:none", "-", "no variable construction after a lookup found")
+	}
+}
+
+// c06Single: in the reader of comma-separated value lists every element is tested for
+// "returns more than one value" before the list can end: the test's block dominates the
+// exit of the reading loop (a test placed after the comma check misses the last element:
+// a, b := 1, f2()).
+func c06Single(w *World, r *Result) {
+	rule := "R-C06-single"
+	n := 0
+	for _, fn := range w.Funcs("parser") {
+		if fn.Signature.Results().Len() < 1 || !isNamed(fn.Signature.Results().At(0).Type(), "evaluatedValues") {
+			continue
+		}
+		loops := naturalLoops(fn)
+		for _, b := range fn.Blocks {
+			// the reading loop: contains an append of a parsed expression
+			hdr := loops[b]
+			if hdr == nil {
+				continue
+			}
+			isAppend := false
+			for _, ins := range b.Instrs {
+				if c, ok := ins.(*ssa.Call); ok {
+					if bi, ok := c.Call.Value.(*ssa.Builtin); ok && bi.Name() == "append" {
+						isAppend = true
+					}
+				}
+			}
+			if !isAppend {
+				continue
+			}
+			n++
+			body := loopBody(hdr)
+			// multi-value tests: len(x.ReturnTypes()) > 1 (or a stored copy of that length) with an error exit
+			var tests []*ssa.BasicBlock
+			for blk := range body {
+				c, _ := condOf(blk)
+				bo, ok := c.(*ssa.BinOp)
+				if !ok || bo.Op != token.GTR {
+					continue
+				}
+				if k, ok := bo.Y.(*ssa.Const); !ok || k.Value == nil || k.Int64() != 1 {
+					continue
+				}
+				if !derivesFromReturnTypesLen(bo.X, 0, map[ssa.Value]bool{}) {
+					continue
+				}
+				tests = append(tests, blk)
+			}
+			key := "single:" + FuncName(fn)
+			pos := w.Pos(fn.Pos())
+			if len(tests) == 0 {
+				r.Bad(rule, key, pos, "the value-list reader never tests whether an element returns more than one value")
+				continue
+			}
+			// every exit edge of the loop that leads to a success return is dominated by a test block
+			bad := false
+			for blk := range body {
+				for _, sc := range blk.Succs {
+					if body[sc] || leadsToErrorReturn(sc, 0) {
+						continue
+					}
+					dom := false
+					for _, t := range tests {
+						if t.Dominates(blk) {
+							dom = true
+						}
+					}
+					if !dom {
+						bad = true
+					}
+				}
+			}
+			if bad {
+				r.Bad(rule, key, pos, "the reading loop can end (no comma follows) before the element just read was tested for \"returns more than one value\": the last element of a list of several values may be a multi-value call (a, b := 1, f2())")
+			} else {
+				r.Ok(rule, key, pos, "every element is tested for multiple results before the list can end")
+			}
+		}
+	}
+	if n == 0 {
+		r.Bad(rule, "single:none", "-", "no reader of value lists found")
+	}
+}
+
+func derivesFromReturnTypesLen(v ssa.Value, d int, seen map[ssa.Value]bool) bool {
+	if d > 5 || seen[v] {
+		return false
+	}
+	seen[v] = true
+	switch x := v.(type) {
+	case *ssa.Call:
+		if bi, ok := x.Call.Value.(*ssa.Builtin); ok && bi.Name() == "len" && len(x.Call.Args) == 1 {
+			if c, ok := x.Call.Args[0].(*ssa.Call); ok {
+				name := ""
+				if c.Call.IsInvoke() {
+					name = c.Call.Method.Name()
+				} else if cal := c.Call.StaticCallee(); cal != nil {
+					name = cal.Name()
+				}
+				return name == "ReturnTypes"
+			}
+		}
+	case *ssa.Phi:
+		for _, e := range x.Edges {
+			if derivesFromReturnTypesLen(e, d+1, seen) {
+				return true
+			}
+		}
+	}
+	return false
 }
